@@ -141,6 +141,17 @@ def run(ctx):
         scripts.append((iver, allm, inter.rand_answers(iver, allm, rng)))
     scripts.append(("3.1", False, []))
     scripts.append(("4", True, ["n"] * 5))
+    # LONG runs of illegal answers to one question ("repeats a question until the answer is legal": no bound)
+    for iver in ["2", "3.0", "3.1", "4"]:
+        for n_bad, allm in ((1300, False), (ctx.n(2600, 12000), True)):
+            order = learned_order(iver, allm) or inter.question_order(iver[0], allm)
+            k = rng.randrange(len(order))
+            ans = []
+            for j, m in enumerate(order):
+                if j == k:
+                    ans += [rng.choice(["?", "ZZ", "0", "no", "-"]) for _ in range(n_bad)]
+                ans.append(rng.choice(VOCAB[iver[0]]["legal"][m]))
+            scripts.append((iver, allm, ans))
     ctx.count(len(scripts))
     ctx.extra["selectability_scripts"] = nsel
     ctx.sample({"version": scripts[nsel][0], "all_metrics": scripts[nsel][1], "answers": scripts[nsel][2]})
